@@ -279,6 +279,8 @@ def cases(shard, tier):
         # the logical file's FIRST add_origin call is refused after objects of other kinds exist; then an origin is added
         for named in (False, True):
             yield {'kindrej': 'origin', 'where': 'no-origin-yet', 'named': named}
+            # ... and the origin that is accepted afterwards gets another reference than the refused one would have got
+            yield {'kindrej': 'origin', 'where': 'no-origin-yet', 'named': named, 'retry_ref': 3}
         return
     for final in FINALS:
         yield {'fw': [shard['fw']], 'final': final}
@@ -416,6 +418,8 @@ def kind_specs(c):
         full, clean = [rej, dict(rej, h='RJ2'), ok1], [ok1]
     mk = lambda ops: {'sul': {'max_record_length': 8192}, 'ops': base + ops, 'write': {}}
     if c['where'] == 'no-origin-yet':
+        if c.get('retry_ref'):
+            ok1 = S.op_add(k, 'OK1', 'X', **dict(good, origin_reference=c['retry_ref'], **sn))
         late = [ok1, S.op_add('zone', 'ZL', 'ZONE-ADDED-LAST')]
         return ({'sul': {'max_record_length': 8192}, 'ops': base[:1] + base[2:] + [rej] + late, 'write': {}},
                 {'sul': {'max_record_length': 8192}, 'ops': base[:1] + base[2:] + late, 'write': {}})
